@@ -1,31 +1,288 @@
-//! C06 — placeholder (not registered in MANIFEST until built).
+//! C06 — the state root commits to exactly the reachable state.
+//!
+//! The simulator's contribution here is the *construction-history* dimension: the same abstract
+//! state is reached through different op orders / storage layouts (shuffled single-op application
+//! with junk inserted and removed, same-id edge migrations), and related states are produced by
+//! chains of single semantic edits. Oracles: (a) the engine's two state-root implementations agree
+//! on every state, also after applying op lists to the columnar accumulator (hook H4); (b) equal
+//! reachable projections ⇔ equal roots across all states of the run; (c) columnar snapshot bytes are
+//! layout-independent and read back to the same state.
+
+use std::collections::BTreeMap;
 
 use serde::{Deserialize, Serialize};
+use warp_core::wsc::{build_one_warp_input, validate_wsc, write_wsc_one_warp, WscFile};
+use warp_core::{NodeKey, WarpState};
 
-use crate::kernel::{Outcome, PropertySpec, Rng, RunCtx, Scenario, Tier};
+use crate::kernel::{catch, Outcome, PropertySpec, Rng, RunCtx, Scenario, Tier};
+use crate::model::refstate::{abs, RefAtt, RefState};
+use crate::world::gen::{gen_state, StateSpec};
+use crate::world::ids;
+use crate::world::states::{build_shuffled, build_with_migrations, edit_spec, state_root};
 
 pub const SPEC: PropertySpec = PropertySpec {
     id: "C06",
     level: "exploration",
-    rule: "placeholder",
-    quick_runs: 1,
-    thorough_runs: 1,
-    real_components: &[],
+    rule: "scenario = base multi-instance state + chain of 1-8 single semantic edits (reachable or unreachable: node/edge type, edge target/source, attachment type/bytes/presence, portal open, instance delete) + 2-4 construction histories per state (canonical patches, shuffled single-op application with junk, same-id edge migrations); non-trivial = >=2 distinct reachable projections in the run; distinct = hash of scenario",
+    quick_runs: 12_000,
+    thorough_runs: 600_000,
+    real_components: &["snapshot::compute_state_root (via WorldlineState::state_root)", "snapshot_accum::SnapshotAccumulator from_warp_state/apply_ops/build (H4)", "tick_patch::diff_state (H3) as op-list source", "wsc::build_one_warp_input / write_wsc_one_warp / WscFile::from_bytes / validate_wsc", "GraphStore"],
     stub_components: &[],
-    assumptions: &[],
+    assumptions: &["reachability = nodes via out-edges from the root, instances via Descend attachments on reachable nodes and on edges leaving reachable nodes (merkle-commit.md)", "a 256-bit hash collision between two different generated projections is treated as impossible"],
     fault_kinds: &[],
 };
 
 #[derive(Clone, Debug, Serialize, Deserialize)]
 pub struct C06 {
-    pub placeholder: u8,
+    pub base: StateSpec,
+    /// states[i+1] = states[i] + one edit
+    pub chain: Vec<StateSpec>,
+    pub labels: Vec<String>,
+    pub order_seeds: Vec<u64>,
 }
 
 impl Scenario for C06 {
-    fn generate(_rng: &mut Rng, _tier: Tier, _avoid: bool) -> Self {
-        C06 { placeholder: 0 }
+    fn generate(rng: &mut Rng, _tier: Tier, _avoid: bool) -> Self {
+        let pool = *rng.pick(&[3u8, 4, 6]);
+        let base = gen_state(rng, pool);
+        let mut chain = Vec::new();
+        let mut labels = Vec::new();
+        let mut cur = base.clone();
+        for _ in 0..rng.urange(1, 8) {
+            let mut trial = cur.clone();
+            let l = edit_spec(rng, &mut trial);
+            if l != "none" && trial.build_ref().is_ok() {
+                cur = trial;
+                chain.push(cur.clone());
+                labels.push(l.to_owned());
+            }
+        }
+        let order_seeds = (0..rng.urange(1, 3)).map(|_| rng.next_u64()).collect();
+        C06 { base, chain, labels, order_seeds }
     }
-    fn execute(&self, _ctx: &mut RunCtx) -> Outcome {
+
+    fn execute(&self, ctx: &mut RunCtx) -> Outcome {
+        let root = self.base.root_key();
+        let warps = self.base.warps();
+        let mut by_root: BTreeMap<[u8; 32], RefState> = BTreeMap::new();
+        let mut by_proj: Vec<(RefState, [u8; 32])> = Vec::new();
+        let mut prev: Option<WarpState> = None;
+        let specs: Vec<&StateSpec> = std::iter::once(&self.base).chain(self.chain.iter()).collect();
+        for (si, spec) in specs.iter().enumerate() {
+            let label = if si == 0 { "base" } else { self.labels.get(si - 1).map_or("edit", String::as_str) };
+            let canonical = match spec.build() {
+                Ok(s) => s,
+                Err(e) => return Outcome::violation("state_construction_failed", e),
+            };
+            let reference = match spec.build_ref() {
+                Ok(r) => r,
+                Err(e) => return Outcome::violation("harness:ref_state_build", e),
+            };
+            if abs(&canonical, &warps) != reference {
+                return Outcome::violation("state_construction_mismatch", format!("state #{si}"));
+            }
+            let r0 = match state_root(&canonical, root) {
+                Ok(r) => r,
+                Err(e) => return Outcome::violation("state_root_uncomputable", e),
+            };
+            ctx.count("time.states", 1);
+            ctx.trace(&r0);
+            // (a) second implementation agrees
+            let acc = match catch(|| warp_core::verif::accumulator_state_root(&canonical, &root)) {
+                Ok(a) => a,
+                Err(p) => return Outcome::violation("accumulator_panicked", p),
+            };
+            if acc != r0 {
+                return Outcome::violation("state_root_implementations_disagree", format!("state #{si} ({label}): store root {} accumulator root {}", hex::encode(r0), hex::encode(acc)));
+            }
+            // accumulator after applying the op list that leads from the previous state to this one
+            if let Some(p) = &prev {
+                let ops = warp_core::verif::diff_state(p, &canonical);
+                let mut replay = p.clone();
+                if warp_core::verif::apply_ops(&mut replay, &ops).is_ok() && abs(&replay, &warps) == reference {
+                    let after = match catch(|| warp_core::verif::accumulator_root_after_ops(p, ops.clone(), &root)) {
+                        Ok(a) => a,
+                        Err(pn) => return Outcome::violation("accumulator_apply_ops_panicked", pn),
+                    };
+                    if after != r0 {
+                        return Outcome::violation(
+                            "accumulator_after_ops_disagrees",
+                            format!("state #{si} ({label}): store root {} accumulator-after-ops root {}; {} ops", hex::encode(r0), hex::encode(after), ops.len()),
+                        );
+                    }
+                    ctx.hit("reach.accumulator_apply_ops_checked");
+                }
+            }
+            // (b) construction-history independence
+            let mut variants: Vec<(&'static str, WarpState)> = Vec::new();
+            for (oi, seed) in self.order_seeds.iter().enumerate() {
+                match build_shuffled(spec, *seed, oi % 2 == 0) {
+                    Ok(s) => variants.push(("shuffled", s)),
+                    Err(e) => return Outcome::violation("alternative_construction_failed", e),
+                }
+            }
+            match build_with_migrations(spec) {
+                Ok(s) => variants.push(("migrations", s)),
+                Err(e) => return Outcome::violation("alternative_construction_failed", e),
+            }
+            let wsc0 = wsc_all(&canonical, spec);
+            for (name, v) in &variants {
+                if abs(v, &warps) != reference {
+                    return Outcome::violation("alternative_construction_mismatch", format!("{name}: abstract state differs for state #{si}"));
+                }
+                match state_root(v, root) {
+                    Ok(r) if r == r0 => {}
+                    Ok(r) => return Outcome::violation("root_depends_on_construction_history", format!("state #{si} via {name}: {} vs {}", hex::encode(r), hex::encode(r0))),
+                    Err(e) => return Outcome::violation("state_root_uncomputable", e),
+                }
+                let a2 = match catch(|| warp_core::verif::accumulator_state_root(v, &root)) {
+                    Ok(a) => a,
+                    Err(p) => return Outcome::violation("accumulator_panicked", p),
+                };
+                if a2 != r0 {
+                    return Outcome::violation("accumulator_root_depends_on_construction_history", format!("state #{si} via {name}"));
+                }
+                let w = wsc_all(v, spec);
+                if w != wsc0 {
+                    return Outcome::violation("wsc_bytes_depend_on_construction_history", format!("state #{si} via {name}"));
+                }
+                ctx.hit("reach.construction_history_compared");
+            }
+            // (c) WSC round trip
+            if let Err(v) = wsc_roundtrip(&wsc0, &reference, spec) {
+                return v;
+            }
+            // (b') root <-> reachable projection, both directions
+            let proj = reference.reachable_projection(&root.warp_id.0, &root.local_id.0);
+            if let Some(other) = by_root.get(&r0) {
+                if *other != proj {
+                    return Outcome::violation("different_reachable_states_same_root", format!("state #{si} ({label}) collides with an earlier state of the run"));
+                }
+            }
+            for (p, r) in &by_proj {
+                if *p == proj && *r != r0 {
+                    return Outcome::violation("same_reachable_state_different_root", format!("state #{si} ({label}): unreachable content or layout leaks into the root"));
+                }
+                if *p != proj && *r == r0 {
+                    return Outcome::violation("different_reachable_states_same_root", format!("state #{si} ({label}): a reachable change ({label}) did not change the root"));
+                }
+            }
+            if si > 0 {
+                let (pp, _) = &by_proj[by_proj.len() - 1];
+                if *pp == proj {
+                    ctx.hit("reach.unreachable_edit");
+                } else {
+                    ctx.hit("reach.reachable_edit");
+                }
+                ctx.hit(&format!("reach.edit.{label}"));
+            }
+            by_root.insert(r0, proj.clone());
+            by_proj.push((proj, r0));
+            prev = Some(canonical);
+        }
+        if by_root.len() >= 2 {
+            ctx.nontrivial(&serde_json::to_vec(self).unwrap_or_default());
+        }
         Outcome::Ok
     }
+
+    fn shrink_candidates(&self) -> Vec<Self> {
+        let mut out = Vec::new();
+        if !self.chain.is_empty() {
+            let mut s = self.clone();
+            s.chain.pop();
+            s.labels.pop();
+            out.push(s);
+            // drop the base: start from the first chain element
+            let mut s = self.clone();
+            s.base = s.chain.remove(0);
+            s.labels.remove(0);
+            out.push(s);
+        }
+        if self.order_seeds.len() > 1 {
+            let mut s = self.clone();
+            s.order_seeds.pop();
+            out.push(s);
+        }
+        if self.chain.is_empty() {
+            for b in crate::props::c04::shrink_spec(&self.base) {
+                let mut s = self.clone();
+                s.base = b;
+                out.push(s);
+            }
+        }
+        out
+    }
 }
+
+/// Columnar snapshot bytes of every instance (one WSC file per instance).
+fn wsc_all(state: &WarpState, spec: &StateSpec) -> Vec<Vec<u8>> {
+    let mut out = Vec::new();
+    for inst in &spec.insts {
+        let w = ids::warp(inst.w);
+        let Some(store) = state.store(&w) else { continue };
+        let input = build_one_warp_input(store, ids::root_node(inst.w));
+        out.push(write_wsc_one_warp(&input, [7u8; 32], 3).unwrap_or_default());
+    }
+    out
+}
+
+fn wsc_roundtrip(files: &[Vec<u8>], reference: &RefState, spec: &StateSpec) -> Result<(), Outcome> {
+    for (inst, bytes) in spec.insts.iter().zip(files) {
+        let w = ids::warp(inst.w);
+        let Some(exp) = reference.inst.get(&w.0) else { continue };
+        let file = match catch(|| WscFile::from_bytes(bytes.clone())) {
+            Ok(Ok(f)) => f,
+            Ok(Err(e)) => return Err(Outcome::violation("wsc_read_failed", format!("{e:?}"))),
+            Err(p) => return Err(Outcome::violation("wsc_read_panicked", p)),
+        };
+        if let Err(e) = validate_wsc(&file) {
+            return Err(Outcome::violation("wsc_validate_failed", format!("{e:?}")));
+        }
+        let view = match file.warp_view(0) {
+            Ok(v) => v,
+            Err(e) => return Err(Outcome::violation("wsc_read_failed", format!("{e:?}"))),
+        };
+        if *view.warp_id() != w.0 || *view.root_node_id() != exp.root {
+            return Err(Outcome::violation("wsc_denotes_other_state", "warp id / root".to_owned()));
+        }
+        let nodes: BTreeMap<[u8; 32], [u8; 32]> = view.nodes().iter().map(|n| (n.node_id, n.node_type)).collect();
+        if nodes != exp.nodes {
+            return Err(Outcome::violation("wsc_denotes_other_state", "node rows".to_owned()));
+        }
+        let edges: BTreeMap<[u8; 32], ([u8; 32], [u8; 32], [u8; 32])> = view.edges().iter().map(|e| (e.edge_id, (e.from_node_id, e.to_node_id, e.edge_type))).collect();
+        if edges != exp.edges {
+            return Err(Outcome::violation("wsc_denotes_other_state", "edge rows".to_owned()));
+        }
+        // attachments
+        for (ix, n) in view.nodes().iter().enumerate() {
+            let rows = view.node_attachments(ix);
+            let got: Vec<RefAtt> = rows.iter().map(|r| att_from_row(&view, r)).collect();
+            let want: Vec<RefAtt> = exp.node_att.get(&n.node_id).cloned().into_iter().collect();
+            if got != want {
+                return Err(Outcome::violation("wsc_denotes_other_state", "node attachment rows".to_owned()));
+            }
+        }
+        for (ix, e) in view.edges().iter().enumerate() {
+            let rows = view.edge_attachments(ix);
+            let got: Vec<RefAtt> = rows.iter().map(|r| att_from_row(&view, r)).collect();
+            let want: Vec<RefAtt> = exp.edge_att.get(&e.edge_id).cloned().into_iter().collect();
+            if got != want {
+                return Err(Outcome::violation("wsc_denotes_other_state", "edge attachment rows".to_owned()));
+            }
+        }
+    }
+    Ok(())
+}
+
+fn att_from_row(view: &warp_core::wsc::WarpView<'_>, row: &warp_core::wsc::types::AttRow) -> RefAtt {
+    let r = warp_core::wsc::AttachmentRef::new(row, view.blob_for_attachment(row));
+    if r.is_descend() {
+        RefAtt::Descend(*r.type_or_warp_id())
+    } else {
+        RefAtt::Atom { ty: *r.type_or_warp_id(), bytes: view.blob_for_attachment(row).map(<[u8]>::to_vec).unwrap_or_default() }
+    }
+}
+
+#[allow(dead_code)]
+fn _unused(_: NodeKey, _: Tier) {}
